@@ -77,7 +77,10 @@ impl ToTokens for HeaderFieldInsertionFragment {
     let header_const = ConstToken::from_raw(original_name);
     let ty = &self.field.rust_type;
 
-    let insertion = if self.field.is_required() {
+    // What matters here is whether the member is an `Option`: a required parameter
+    // with a default or const value is a plain member although it is not "required"
+    // in the sense of having to be supplied.
+    let insertion = if !ty.nullable {
       let header_value = header_value_expr(ty, quote! { &headers.#field_name });
       quote! {
         let header_value = http::HeaderValue::try_from(#header_value)?;
@@ -180,7 +183,7 @@ impl ToTokens for HeaderFieldExtractionFragment {
 
     let header_const = ConstToken::from_raw(original_name);
     let parse_expr = header_parse_expr(&self.field.rust_type, &quote! { value });
-    let default_suffix = self.field.is_required().then(|| quote! { .unwrap_or_default() });
+    let default_suffix = (!self.field.rust_type.nullable).then(|| quote! { .unwrap_or_default() });
 
     tokens.extend(quote! {
       #field_name: headers
